@@ -35,7 +35,7 @@ PROP = dict(
     exhaustive=dict(quick=False, thorough=False),
     technique="TLA+ spec Lifecycle.tla model-checked by TLC; TLC-generated histories executed on the real casket package, recorded traces validated by TLC (LifecycleTrace.tla)",
     level_text="TLC explores every interleaving of the controller steps of Start/Restart/Stop/casket.Stop with the server goroutines and Wait()ers for all histories up to the bound and checks the callback-count/order invariants and the WaitGroup accounting; every history is then executed against the real package (scriptable server type registered through the public plugin API, real loopback sockets for the fd hand-over) and the recorded event trace must be a behaviour of the specification with all invariants holding at every step.",
-    level_note="The model is checked exhaustively in both tiers; the histories executed against the real package are a seeded sample of what TLC emits (quick: 1 200 of the three-operation histories, thorough: 36 000; the evidence file gives the number TLC emitted - operations carry the listener-hand-over flag and the failure stage panic). Trusted: TLC; the scriptable server type (harness/faketype) reports its own steps truthfully; callbacks that return errors are exercised only for OnStartup and OnRestart; process-level shutdown (signals, OnFinalShutdown) is covered by the child-process part.",
+    level_note="The model is checked exhaustively in both tiers; the histories executed against the real package are a seeded sample of what TLC emits (quick: 1 200 of the three-operation histories, thorough: 24 000; the evidence file gives the number TLC emitted - operations carry the listener-hand-over flag and the failure stage panic). Trusted: TLC; the scriptable server type (harness/faketype) reports its own steps truthfully; callbacks that return errors are exercised only for OnStartup and OnRestart; process-level shutdown (signals, OnFinalShutdown) is covered by the child-process part.",
     assumptions=["one callback per list per instance", "shutdown callbacks that return errors are out of scope (see DESIGN.md)"],
     selftest_expects_mismatch=True,
 )
